@@ -117,17 +117,17 @@ func (b *c11Behaviour) Key() string {
 
 // what the path did to one exchange (bit set)
 const (
-	c11CaseChanged   = 1 << iota // rewrite: letters of the query name changed case
-	c11HiReplaced                // rewrite: octets >= 0x80 replaced by '?'
-	c11EdnsStripped              // rewrite: OPT removed from the query
-	c11QDropHi                   // loss: query with 8-bit octets dropped
-	c11QDropType                 // loss: query of a refused type dropped
-	c11ANxdomain                 // loss: refused type answered NXDOMAIN
-	c11AEmpty                    // loss: refused type answered NOERROR without records
-	c11ADropSize                 // loss: answer above the size limit dropped
-	c11ATcSize                   // loss: answer above the size limit truncated (TC, no records)
-	c11ServerSilent              // loss: the server itself sent nothing (onMessage error / pack failure)
-	c11RewriteMask   = c11CaseChanged | c11HiReplaced | c11EdnsStripped
+	c11CaseChanged  = 1 << iota // rewrite: letters of the query name changed case
+	c11HiReplaced               // rewrite: octets >= 0x80 replaced by '?'
+	c11EdnsStripped             // rewrite: OPT removed from the query
+	c11QDropHi                  // loss: query with 8-bit octets dropped
+	c11QDropType                // loss: query of a refused type dropped
+	c11ANxdomain                // loss: refused type answered NXDOMAIN
+	c11AEmpty                   // loss: refused type answered NOERROR without records
+	c11ADropSize                // loss: answer above the size limit dropped
+	c11ATcSize                  // loss: answer above the size limit truncated (TC, no records)
+	c11ServerSilent             // loss: the server itself sent nothing (onMessage error / pack failure)
+	c11RewriteMask  = c11CaseChanged | c11HiReplaced | c11EdnsStripped
 )
 
 var c11FateNames = []string{"case-changed", "8bit-replaced", "edns0-stripped", "query-dropped(8bit)", "query-dropped(type)",
@@ -863,7 +863,25 @@ func c11Data(rec *vcommon.Rec, b *c11Behaviour, path *c11Path, comm *vClientComm
 					counted++
 				}
 				sinceProgress++
-				if err := client.SendAndReceive(client.out.NextChunk()); err != nil {
+				// The exchange itself is in-memory with virtual timeouts, so it returns within microseconds unless
+				// the client dead-locks on one of its own mutexes. That must not hang the harness: the call runs
+				// under a watch, and a call that is still blocked after 45 s while the process is idle (nothing
+				// is left to act but the client itself) is the violation "client call never returns".
+				var perr error
+				pdone := make(chan struct{})
+				go func() { defer close(pdone); perr = client.SendAndReceive(client.out.NextChunk()) }()
+				select {
+				case <-pdone:
+				case <-time.After(45 * time.Second):
+					info := desc()
+					info["goroutines"] = c11AllStacks()
+					fail("c2s", "client-call-never-returns(deadlock)", info)
+					failed = true
+				}
+				if failed {
+					break
+				}
+				if err := perr; err != nil {
 					pumpErrs++
 					lastPumpErr = err.Error()
 				}
